@@ -72,14 +72,14 @@ func (f *DiscoverJSON) Call(s *slip.Scope, args slip.List, depth int) (result sl
 	if ok {
 		cb = func(j any) bool {
 			inst := flavor.MakeInstance().(*flavors.Instance)
-			inst.Any = j
+			inst.Any = fixNumbers(j)
 			channel <- inst
 			return false
 		}
 	} else {
 		cb = func(j any) bool {
 			inst := flavor.MakeInstance().(*flavors.Instance)
-			inst.Any = j
+			inst.Any = fixNumbers(j)
 			return caller.Call(s, slip.List{inst}, d2) != nil
 
 		}
